@@ -52,10 +52,16 @@ def _one(prop, item):
         repo = os.path.join(tmp, "repo")
         os.makedirs(repo)
         _copy_repo(repo)
-        r = common.sh(["git", "apply", "--unsafe-paths", "--directory=" + repo, item["patch"]], cwd="/")
-        if r.returncode != 0:
-            r = common.sh(["git", "apply", item["patch"]], cwd=repo)
-        if r.returncode != 0:
+        import glob
+        cands = [item["patch"]] + sorted(glob.glob(os.path.join(os.path.dirname(item["patch"]), "patch_rebased_*.diff")), reverse=True) \
+            if item["name"].startswith("seeded/") else [item["patch"]]
+        applied = False
+        for pth in cands:
+            r = common.sh(["git", "apply", pth], cwd=repo)
+            if r.returncode == 0:
+                applied = True
+                break
+        if not applied:
             return dict(item, outcome="not-applicable", detail="patch does not apply to the current tree")
         env = dict(os.environ, VERIF_REPO=repo, VERIF_CACHE=os.path.join(tmp, "cache"), VERIF_EVIDENCE_DIR=os.path.join(tmp, "evidence"),
                    VERIF_SELFTEST_CHILD="1", VERIF_TIER="quick")
